@@ -111,6 +111,92 @@ def _c12_case(shape, text, preemptions, skip=False, wf_name='wf'):
     return case
 
 
+SKIP_JOIN_DATA = """
+version: '2.0'
+wf:
+  output:
+    seen: <% $.get(seen, none) %>
+    seen_j: <% $.get(seen_j, none) %>
+  tasks:
+    r:
+      action: std.noop
+      publish:
+        root_var: R
+      on-success: [a, b]
+    a:
+      action: std.noop
+      publish:
+        v: published
+      publish-on-skip:
+        v: skipped
+      on-skip: [c, j]
+      on-success: [c, j]
+    b:
+      action: std.noop
+      on-success: j
+    c:
+      action: std.noop
+      publish:
+        seen: <% [$.get(v, none), $.get(root_var, none)] %>
+    j:
+      join: all
+      action: std.noop
+      publish:
+        seen_j: <% [$.get(v, none), $.get(root_var, none)] %>
+"""
+
+
+def _c12_skip_data_case():
+    """a failed task is skipped: what it publishes on skip reaches every
+    task it routes to - a plain task and a join alike"""
+    def case():
+        from vt.world import World
+        from mistral_lib import actions as ml
+        sig = 'C12.skip-data'
+        w = World([SKIP_JOIN_DATA], sym_upstream_order=True)
+        with w:
+            wid = w.start('wf')
+            phase = {'n': 1}
+
+            def res(ev):
+                tid = ev.payload['exec_ctx'].get('task_execution_id')
+                n = [t for t in w.rows('TaskExecution')
+                     if t['id'] == tid][0]['name']
+                if n == 'a' and phase['n'] == 1:
+                    return ml.Result(error='boom')
+                return ml.Result(data='ok')
+            w.run(result_of=res)
+            a = w.task('a', wid)
+            assume(a is not None and a['state'] == 'ERROR')
+            phase['n'] = 2
+            w.call('rerun_workflow', a['id'], reset=True, skip=True)
+            w.run(result_of=res)
+            reach('skipped')
+            x = w.wf_ex(wid)
+            info = {'state': x['state'], 'output': x['output'],
+                    'tasks': [(t['name'], t['state'])
+                              for t in w.tasks(wid)],
+                    'errors': [repr(e)[:160] for m, e in w.errors]}
+            check(x['state'] == 'SUCCESS' and w.task('a', wid)['state'] ==
+                  'SKIPPED', 'skip-did-not-finish-the-run',
+                  dict(info, signature=sig + ':final'))
+            for name, key in (('c', 'seen'), ('j', 'seen_j')):
+                t = w.task(name, wid)
+                check(t is not None and
+                      (t['in_context'] or {}).get('v') == 'skipped' and
+                      (t['in_context'] or {}).get('root_var') == 'R',
+                      'published-on-skip-not-visible-downstream',
+                      dict(info, signature=sig + ':%s' % name, task=name,
+                           in_context={k: v for k, v in
+                                       ((t and t['in_context']) or {}).items()
+                                       if not k.startswith('__')}))
+            check((x['output'] or {}).get('seen') == ['skipped', 'R'] and
+                  (x['output'] or {}).get('seen_j') == ['skipped', 'R'],
+                  'output-misses-data-published-on-skip',
+                  dict(info, signature=sig + ':output'))
+    return case
+
+
 MIDRUN = """
 version: '2.0'
 wf:
@@ -363,6 +449,8 @@ def c12_e(ctx):
     yield Case('subwf', _c12_case('subwf', shapes.SUBWF_PLAIN, k,
                                   wf_name='parent'),
                needed=['first-run-failed', 'rerun-done', 'nested-rerun'])
+    yield Case('skip/data', _c12_skip_data_case(),
+               needed=['skipped'], replay=_strong_skip_data)
     yield Case('mid-run', _c12_midrun_case(max(k, 1)),
                needed=['failed-while-sibling-running', 'rerun-done'])
     yield Case('items-subwf', _c12_items_case(max(k, 1) + 1),
@@ -373,3 +461,8 @@ def c12_e(ctx):
                         ('chain3', shapes.CHAIN3)):
         yield Case(shape + '/skip', _c12_case(shape, text, k, skip=True),
                    needed=['first-run-failed', 'rerun-done'])
+
+
+def _strong_skip_data(model, v):
+    from vt import kit
+    return kit.run_strong_test('test_c12_skip_publish_join.py', timeout=90)
